@@ -21,7 +21,9 @@ RULE = (
     "part of the dump), and for programs the front-end graph from source, the front-end graph from "
     "bytecode, their restructured forms and the regenerated source text; the parent compares the "
     "digests across processes; every other process walks its cases in reverse order, so state "
-    "leaking from one case into the next also shows. Classes: uniform/structured/loop-hostile graphs, graphs relabelled "
+    "leaking from one case into the next also shows; every second case is run a second time in "
+    "the same process and must give the same digests. Graphs are built by SCFG(graph), by add_block "
+    "or by writing the graph dict (a pure function of the graph). Classes: uniform/structured/loop-hostile graphs, graphs relabelled "
     "with long random names and with names sorting against insertion order, generated programs. "
     "distinct = hash of the case; non-trivial = restructuring inserted at least one synthetic block "
     "(so set-iteration order could matter)"
@@ -125,6 +127,17 @@ def program_parts(src):
     return parts, synth
 
 
+def _again(ctx, parts, redo):
+    """The same input a second time in the SAME process: "always yields the
+    identical result" also rules out state carried from one run to the next."""
+    ctx.hit("c12.second_run_in_same_process")
+    second = redo()
+    if second != parts:
+        part = next((a[0] for a, b in zip(parts, second) if a != b), "length")
+        ctx.violation("C12", "result_differs_between_two_runs_in_one_process:" + part,
+                      {"part": part})
+
+
 def run_shard(spec):
     acc = ShardAcc(PROPERTY)
     digests = {}
@@ -145,6 +158,8 @@ def run_shard(spec):
             key = f"{spec['cls']}/{spec['seed']}/{i}"
             digests[key] = parts
             ctx = core.Ctx(key)
+            if i % 2 == 0:
+                _again(ctx, parts, lambda: graph_parts(g)[0])
             ctx.hit("c12.digests_recorded", len(parts))
             acc.add_ctx(ctx, {"kind": "graph", "cls": spec["cls"], "g": g, "id": key},
                         nontrivial_hash=core.graph_hash(g) if nt else None,
@@ -156,6 +171,8 @@ def run_shard(spec):
             key = f"prog:{spec['cls']}/{spec['seed']}/{i}"
             digests[key] = parts
             ctx = core.Ctx(key)
+            if i % 2 == 0:
+                _again(ctx, parts, lambda: program_parts(src)[0])
             ctx.hit("c12.digests_recorded", len(parts))
             acc.add_ctx(ctx, {"kind": "program", "cls": spec["cls"], "src": src, "id": key},
                         nontrivial_hash=core.sha(src) if nt else None,
